@@ -6,20 +6,23 @@ import "verif/internal/core"
 // rule text of each check so that evidence and manifest describe what is actually driven.
 func init() {
 	add := map[string]string{
-		"C02": "Added: artifact envelopes signed in half of the artifact cases; unsigned Responses without Destination.",
-		"C03": "Added: origin-form received-at URLs (path, path+query) with same-request-URI Destinations on foreign hosts and schemes; second-level status codes nested under every top-level value.",
-		"C04": "Added: unsigned Responses without Destination (signed assertion inside) for every (outstanding set, InResponseTo, confirmation) combination on the XML and POST entries.",
+		"C02": "Added: artifact envelopes signed in half of the artifact cases; unsigned Responses without Destination. Round 3: AllowIDPInitiated on a quarter of the sampled cases; holder-of-key / sender-vouches / empty confirmation Methods.",
+		"C03": "Added: origin-form received-at URLs (path, path+query) with same-request-URI Destinations on foreign hosts and schemes; second-level status codes nested under every top-level value. Round 3: AllowIDPInitiated on/off; non-bearer confirmation Methods.",
+		"C04": "Added: unsigned Responses without Destination (signed assertion inside) for every (outstanding set, InResponseTo, confirmation) combination on the XML and POST entries. Round 3: non-bearer confirmation Methods; scripted resolver whose first exchange fails (transport error / 503) and which answers any retry with the first request's ID.",
 		"C06": "Added: registry metadata mixing HTTP-Redirect/HTTP-Artifact endpoints at their own locations with the POST ones (a non-POST selection must emit nothing); a preceding response for another session written to a connection that fails part-way.",
 		"C07": "Added: sessions that repeat an attribute Name/NameFormat (of an earlier custom attribute or of a built-in one).",
 		"C08": "Added: EncryptionMethod lists on the key descriptors {none, supported, unsupported-only, content-only, mixed}; random sources serving short reads (1/7/16 bytes per Read).",
-		"C09": "Added: scripted resolver answers that are well-formed but fail one semantic check each (status values, InResponseTo, IssueInstant, Issuer, Version, inner Response status/issuer/freshness/InResponseTo/Destination, no assertion).",
-		"C12": "Added: random sources serving short reads (1/7/8/16 bytes per Read); RequestedAuthnContext with Comparison exact/unset/minimum/better.",
-		"C13": "Added: RequestedAuthnContext {none, exact, Comparison unset, minimum}, ForceAuthn nil/true/false and NameID format varied per message.",
-		"C16": "Added: AuthnStatements carrying SessionNotOnOrAfter before, inside and far beyond the configured session lifetime.",
-		"C17": "Added: flows started at URLs whose percent-encoded path decodes to '//host', '?', '#', '../' or carries ';param', and a path-only URL; the restored Location is compared byte-for-byte.",
-		"C18": "Added: attacker re-signing with two certificates in KeyInfo (attacker+genuine, both orders); second-level status codes (PartialLogout, AuthnFailed, Success) nested under every top-level value.",
-		"C19": "Added: PUT /users with an empty password member; logins and SSO POST credentials with the replaced (previous) password.",
+		"C09": "Added: scripted resolver answers that are well-formed but fail one semantic check each (status values, InResponseTo, IssueInstant, Issuer, Version, inner Response status/issuer/freshness/InResponseTo/Destination, no assertion). Round 3: one more SP per delivery from the six other trust configurations; dictionary sweeps (path/template/format metacharacters, PEM armour fragments, base64 edge cases) over the X509Certificate text of both signature positions under every trust configuration, and over EncryptedKey Id / RetrievalMethod URI of encrypted assertions in the sibling-EncryptedKey layout; vocabulary insertion and targeted garbling in the structural mutator.",
+		"C12": "Added: random sources serving short reads (1/7/8/16 bytes per Read); RequestedAuthnContext with Comparison exact/unset/minimum/better. Round 3: IdP SingleLogoutService endpoints with a ResponseLocation (requests must go to Location; responses may go to either, consistently).",
+		"C13": "Added: RequestedAuthnContext {none, exact, Comparison unset, minimum}, ForceAuthn nil/true/false and NameID format varied per message. Round 3: samlsp.Middleware.HandleStartAuthFlow with SignRequest on, IdP offering redirect-only / POST-only / both SSO endpoints, Middleware.Binding unset / redirect / POST; near-miss method URIs (white space, case, trailing #, truncated); SP Intermediates.",
+		"C16": "Added: AuthnStatements carrying SessionNotOnOrAfter before, inside and far beyond the configured session lifetime. Round 3: a deployment whose codec has different Issuer and Audience names, with re-signed tokens carrying each name in the other claim.",
+		"C17": "Added: flows started at URLs whose percent-encoded path decodes to '//host', '?', '#', '../' or carries ';param', and a path-only URL; the restored Location is compared byte-for-byte. Round 3: DefaultRedirectURI, CookieName, SignRequest, CookieSameSite varied per world; deliveries that present the authentic cookie of the answered flow plus a second, undecodable cookie named by RelayState.",
+		"C18": "Added: attacker re-signing with two certificates in KeyInfo (attacker+genuine, both orders); second-level status codes (PartialLogout, AuthnFailed, Success) nested under every top-level value. Round 3: trust-reconfiguration sequences on one long-lived SP (as C01).",
+		"C19": "Added: PUT /users with an empty password member; logins and SSO POST credentials with the replaced (previous) password. Round 3: sparse PUT bodies (e-mail, groups, names left out) with the stored user compared to the body; two seeded users without e-mail; live / older / forged session cookies attached to credential logins.",
 		"C20": "Added: (b2) single-writer/many-reader monitor over long histories (30k-150k writer steps, 3-5 readers calling List/Get continuously): every result must equal a store state that existed between the writer operations completed before the call and begun at its return (exact for single-writer histories).",
+		"C05": "Added: optional request content that must not matter (requester Conditions window, Subject with foreign Recipient, Scoping, Extensions, ForceAuthn/IsPassive); client-controlled receive host (Host / X-Forwarded-Host equal to the forged Destination's host or a third host).",
+		"C11": "Added: unusual certificates of other keys (CA, CA with path length 0, expired, same subject and serial, no key usage, EC CA); key values without key material (typed-nil and zero *rsa.PrivateKey, public-only key, nil slices, typed-nil ECDSA key and certificate).",
+		"C14": "Added: metadata endpoint attributes spelled as namespace-qualified twins of the plain attribute (before/after it, foreign or metadata namespace prefix, qualified Binding / ResponseLocation twins).",
 	}
 	for id, t := range add {
 		if s := core.LookupSpec(id); s != nil {
